@@ -33,21 +33,18 @@ theorem shard_unsharded (cfg : Cfg) (d : CDesc) (starts : String → Nat → Nat
 
 /-! ### right-sized and spread evenly -/
 
-/-- zone-aware: every zone contributes `min(⌈size/zones⌉, eligible instances of the zone)` members.
-The guard excludes exactly the sizes of finding F-C12-2 (`near_maxint_size_witness`). -/
+/-- zone-aware: every zone contributes `min(⌈size/zones⌉, eligible instances of the zone)` members,
+for every positive size up to `MaxInt` (full strength since fix 90273d3 of finding F-C12-2). -/
 theorem shard_size (cfg : Cfg) (hza : cfg.zoneAware = true) (d : CDesc) (hd : WF d) (ht : AllTok d)
-    (starts : String → Nat → Nat) (size now : Int) (hsize : 0 < size)
-    (hn : ¬ (nearMaxInt size = true ∧ (zonesOf d).length = 1)) (z : String) (hz : z ∈ zonesOf d) :
+    (starts : String → Nat → Nat) (size now : Int) (hsize : 0 < size) (z : String) (hz : z ∈ zonesOf d) :
     cnt (eligZ d z) (shard cfg d starts size 0 now) =
       min (expectedPerZone size (zonesOf d).length).toNat (eligZ d z).length :=
-  PfC12.shard_size_za cfg hza d hd ht starts size now hsize hn z hz
+  PfC12.shard_size_za cfg hza d hd ht starts size now hsize z hz
 
-/-- the quota is the rounded-up quotient. -/
-theorem expectedPerZone_eq_ceil (size : Int) (k : Nat) (hk : 0 < k) (h1 : size ≠ maxInt) (h2 : nearMaxInt size = false) :
-    expectedPerZone size k = ((size.toNat + k - 1) / k : Nat) := by
-  unfold expectedPerZone
-  have : (k == 0) = false := by simp; omega
-  simp [h1, h2, this]
+/-- the quota is the rounded-up quotient (`MaxInt`, "as many as there are", stays `MaxInt`). -/
+theorem expectedPerZone_eq_ceil (size : Int) (k : Nat) (hk : 0 < k) (h1 : size ≠ maxInt) :
+    expectedPerZone size k = ((size.toNat + k - 1) / k : Nat) :=
+  PfC12.expectedPerZone_ceil size k hk h1
 
 /-- zone-awareness off: `min(size, eligible instances)` members. -/
 theorem shard_size_no_zones (cfg : Cfg) (hza : cfg.zoneAware = false) (d : CDesc) (hd : WF d) (ht : AllTok d)
@@ -58,7 +55,7 @@ theorem shard_size_no_zones (cfg : Cfg) (hza : cfg.zoneAware = false) (d : CDesc
 /-! ### contains the shard of every smaller size -/
 
 theorem shard_mono_size (cfg : Cfg) (d : CDesc) (hd : WF d) (starts : String → Nat → Nat) (s s' now : Int)
-    (h0 : 0 < s) (h : s ≤ s') (hs' : nearMaxInt s' = false) :
+    (h0 : 0 < s) (h : s ≤ s') (hs' : s' ≤ maxInt) :
     ∀ m ∈ shard cfg d starts s 0 now, m ∈ shard cfg d starts s' 0 now :=
   PfC12.shard_mono_size cfg d hd starts s s' now h0 h hs'
 
@@ -167,7 +164,7 @@ Not proved (kept as statements):
   `el' = el ∧ ≠ x`, i.e. `PfC12.ExInv.step` directly); judged (`one_change_ro`) on every case.
 -/
 
-/-! ### witnesses of the two findings on the unchanged code -/
+/-! ### witness of finding F-C12-1 (known finding) -/
 
 def wa1 : CInst := ⟨"a1", "a", [10], 0, 0, false⟩
 def wa2 : CInst := ⟨"a2", "a", [20], 0, 0, false⟩
@@ -188,11 +185,11 @@ theorem remove_one_zone_vanishes_witness (starts : String → Nat → Nat) :
   have hw := wring_wf
   have hw' : WF (wring.filter (neq wc1)) ∧ AllTok (wring.filter (neq wc1)) := ⟨hw.1.filter _, hw.2.filter _⟩
   -- sizes before: one member per zone
-  have sa := PfC12.shard_size_za ⟨true⟩ rfl wring hw.1 hw.2 starts 3 0 (by decide) (by decide) "a" (by decide)
-  have sb := PfC12.shard_size_za ⟨true⟩ rfl wring hw.1 hw.2 starts 3 0 (by decide) (by decide) "b" (by decide)
+  have sa := PfC12.shard_size_za ⟨true⟩ rfl wring hw.1 hw.2 starts 3 0 (by decide) "a" (by decide)
+  have sb := PfC12.shard_size_za ⟨true⟩ rfl wring hw.1 hw.2 starts 3 0 (by decide) "b" (by decide)
   -- sizes after: two members per zone
-  have sa' := PfC12.shard_size_za ⟨true⟩ rfl _ hw'.1 hw'.2 starts 3 0 (by decide) (by decide) "a" (by decide)
-  have sb' := PfC12.shard_size_za ⟨true⟩ rfl _ hw'.1 hw'.2 starts 3 0 (by decide) (by decide) "b" (by decide)
+  have sa' := PfC12.shard_size_za ⟨true⟩ rfl _ hw'.1 hw'.2 starts 3 0 (by decide) "a" (by decide)
+  have sb' := PfC12.shard_size_za ⟨true⟩ rfl _ hw'.1 hw'.2 starts 3 0 (by decide) "b" (by decide)
   have ea : eligZ wring "a" = [wa1, wa2] := by decide
   have eb : eligZ wring "b" = [wb1, wb2] := by decide
   have ea' : eligZ (wring.filter (neq wc1)) "a" = [wa1, wa2] := by decide
@@ -222,27 +219,31 @@ theorem remove_one_zone_vanishes_witness (starts : String → Nat → Nat) :
   · apply fulla; rcases ha with rfl | rfl <;> simp
   · apply fullb; rcases hb with rfl | rfl <;> simp
 
-/-- **F-C12-2**: one zone, size `MaxInt - 1`: the quota overflows and the shard is empty, although the
-single instance is eligible (for `MaxInt` itself the code has a special case). -/
-theorem near_maxint_size_witness (starts : String → Nat → Nat) :
-    shard ⟨true⟩ [wa1] starts 9223372036854775806 0 0 = [] ∧
-    shard ⟨true⟩ [wa1] starts 9223372036854775807 0 0 = [wa1] := by
-  constructor
-  · show shuffleShard ⟨true⟩ [wa1] starts 9223372036854775806 0 0 = []
-    have : perZone ⟨true⟩ [wa1] 9223372036854775806 = -9223372036854775808 := by decide
-    unfold shuffleShard
-    simp only [this]
-    simp [mkLB, actualZones, zonesOf, insertZone, zoneStep, countPerZone, inZone, wa1, picks]
-  · have : perZone ⟨true⟩ [wa1] 9223372036854775807 = 9223372036854775807 := by decide
-    show shuffleShard ⟨true⟩ [wa1] starts 9223372036854775807 0 0 = [wa1]
-    unfold shuffleShard
-    simp only [this]
-    simp [mkLB, actualZones, zonesOf, insertZone, zoneStep, countPerZone, inZone, wa1, includeRO]
+/-
+History — finding F-C12-2 (fixed by 90273d3). Before the fix the model returned MinInt64 as the quota for
+one zone and `size ∈ [MaxInt-511, MaxInt-1]` (float64 overflow) and this witness was a theorem:
+
+  theorem near_maxint_size_witness (starts) :
+      shard ⟨true⟩ [wa1] starts 9223372036854775806 0 0 = [] ∧
+      shard ⟨true⟩ [wa1] starts 9223372036854775807 0 0 = [wa1]
+
+`shard_size` carried the guard `¬ (nearMaxInt size ∧ (zonesOf d).length = 1)`; it is now unguarded, and
+`near_maxint_sizes_hold` below is the former counterexample turned into an instance of it.
+-/
+
+/-- the former counterexample of F-C12-2 now holds the single instance. -/
+theorem near_maxint_sizes_hold (starts : String → Nat → Nat) :
+    cnt [wa1] (shard ⟨true⟩ [wa1] starts 9223372036854775806 0 0) = 1 := by
+  have hw : WF [wa1] ∧ AllTok [wa1] := ⟨⟨by decide, by unfold TokNodup; decide⟩, by unfold AllTok; decide⟩
+  have := PfC12.shard_size_za ⟨true⟩ rfl [wa1] hw.1 hw.2 starts 9223372036854775806 0 (by decide) "a" (by decide)
+  have e : eligZ [wa1] "a" = [wa1] := by decide
+  have z : (zonesOf [wa1]).length = 1 := by decide
+  rw [e, z] at this
+  rw [this]; decide
 
 /-! ### non-vacuity: the hypotheses are met by concrete non-trivial rings -/
 
-example : WF wring ∧ AllTok wring ∧ "b" ∈ zonesOf wring ∧ ¬ (nearMaxInt 3 = true ∧ (zonesOf wring).length = 1) :=
-  ⟨wring_wf.1, wring_wf.2, by decide, by decide⟩
+example : WF wring ∧ AllTok wring ∧ "b" ∈ zonesOf wring := ⟨wring_wf.1, wring_wf.2, by decide⟩
 /-- removing one of two instances of a zone keeps the zone set (guard of `shard_remove_one`). -/
 example : zonesOf (wring.filter (neq wa2)) = zonesOf wring := by decide
 /-- a recently registered instance may be dropped without changing the zones (guard of `lookback_superset`). -/
@@ -256,7 +257,7 @@ def wflip : CInst → CInst := fun i => if i.id = "a2" then { i with ro := false
 example : ROOnly wflip ∧ (wflip ⟨"a2", "a", [20], 5, 95, true⟩).ro ≠ true ∧ (95 : Int) ≥ 100 - 10 :=
   ⟨⟨fun i => by unfold wflip; split <;> rfl, fun i => by unfold wflip; split <;> rfl,
     fun i => by unfold wflip; split <;> rfl, fun i => by unfold wflip; split <;> rfl⟩, by decide, by decide⟩
-example : nearMaxInt 12 = false ∧ (0 : Int) < 3 ∧ (3 : Int) ≤ 12 := by decide
+example : (0 : Int) < 3 ∧ (3 : Int) ≤ 12 ∧ (12 : Int) ≤ maxInt := by decide
 example : countPerZone wring "a" ≤ 2 := by decide
 
 end PC12
